@@ -96,6 +96,18 @@ def esStep (fs : List Filter) (cap : Nat) (s : ES) : Act → ES
 
 def esRun (fs : List Filter) (cap : Nat) (sched : List Act) : ES := sched.foldl (esStep fs cap) {}
 
+/-- Variant (regression witness only): the filter loop does not stop at the first matching filter
+but attempts one enqueue per matching filter. -/
+def esStepPerFilter (fs : List Filter) (cap : Nat) (s : ES) : Act → ES
+  | .arrive e =>
+    (fs.filter (·.invoke e)).foldl (fun s _ =>
+      if s.stopped then s
+      else if s.buf.length < cap then { s with buf := s.buf ++ [e], log := s.log ++ [(e, true)] }
+      else { s with log := s.log ++ [(e, false)] }) s
+  | a => esStep fs cap s a
+
+def esRunPerFilter (fs : List Filter) (cap : Nat) (sched : List Act) : ES := sched.foldl (esStepPerFilter fs cap) {}
+
 /-! ### HandleEvent versus Stop
 
 The agent's `eventLoop` snapshots the handler list, releases the lock and calls
